@@ -35,7 +35,7 @@ Inductive hop :=
 | HGet (b k : list N) (vid : list N) | HHead (b k : list N) (vid : list N)
 | HDelete (b k : list N) | HDeleteVersion (b k vid : list N)
 | HMultiDelete (b : list N) (ks : list (list N * list N))
-| HCopy (sb sk b k : list N)
+| HCopy (sb sk b k : list N) (m : meta)
 | HSetVersioning (b : list N) (enable : bool)
 | HList (b pre : list N) (delim : option N) (marker : list N) (has_marker : bool) (maxkeys : Z) (v2 : bool)
 | HInitiate (b k : list N) (m : meta)
@@ -135,7 +135,7 @@ Definition to_op (t : list (N * list N)) (o : hop) : op :=
   | HDelete b k => ODelete b k
   | HDeleteVersion b k v => ODeleteVersion b k (match vid_in t v with Some i => i | None => 0%N end)
   | HMultiDelete b ks => OMultiDelete b (map (fun kv => (fst kv, vid_in t (snd kv))) ks)
-  | HCopy sb sk b k => OCopy sb sk b k
+  | HCopy sb sk b k m => OCopy sb sk b k m
   | HSetVersioning b e => OSetVersioning b e
   | HList b pre d mk hm mx _ => OList b pre d mk hm mx
   | _ => OListBuckets       (* uploader operations are stepped by [up_step] *)
